@@ -194,6 +194,63 @@ theorem multiPurge_cons (al : Nat → Bool) (T : Tbl) (x : Nat) (e : Nat × List
     multiPurge al T x (e :: keys) st =
       multiPurge al (purge al T x e.1 e.2 st).1 x keys (purge al T x e.1 e.2 st).2 := rfl
 
+theorem foldl_purgeStep_mono (al : Nat → Bool) (x name : Nat) :
+    ∀ (L : List Nat) (acc : Tbl × List Nat), ∀ y ∈ acc.2, y ∈ (L.foldl (purgeStep al x name) acc).2
+  | [], _, y, hy => hy
+  | a :: L, acc, y, hy => by
+    simp only [List.foldl_cons]
+    apply foldl_purgeStep_mono al x name L
+    unfold purgeStep
+    split
+    · split
+      · exact List.mem_append_left _ hy
+      · exact hy
+    · exact hy
+
+/-- completeness of the loop: every listed listener that is alive and still holds `x` is reported -/
+theorem foldl_purgeStep_complete (al : Nat → Bool) (x name : Nat) :
+    ∀ (L : List Nat) (acc : Tbl × List Nat) (l : Nat), l ∈ L → al l = true → x ∈ getD acc.1 (l, name) →
+      l ∈ (L.foldl (purgeStep al x name) acc).2
+  | [], _, _, h, _, _ => by simp at h
+  | a :: L, acc, l, hl, ha, hx => by
+    simp only [List.foldl_cons]
+    by_cases hal : a = l
+    · subst hal
+      apply foldl_purgeStep_mono
+      unfold purgeStep
+      have : (removeAll acc.1 (a, name) x).2 = true := by rw [removeAll_found]; simpa using hx
+      simp [ha, this]
+    · have hl' : l ∈ L := by
+        rcases List.mem_cons.1 hl with h | h
+        · exact absurd h.symm hal
+        · exact h
+      apply foldl_purgeStep_complete al x name L _ l hl' ha
+      rw [purgeStep_getD]
+      have : ¬ ((l, name) = (a, name) ∧ al a = true) := by
+        intro h; apply hal; exact (Prod.mk.inj h.1).1.symm
+      simp only [this, if_false]; exact hx
+
+theorem purge_complete (al : Nat → Bool) (T : Tbl) (x name : Nat) (list st : List Nat) (l : Nat)
+    (hl : l ∈ list) (ha : al l = true) (hx : x ∈ getD T (l, name)) : l ∈ (purge al T x name list st).2 :=
+  foldl_purgeStep_complete al x name _ _ l (by simpa using hl) ha hx
+
+theorem purge_mono (al : Nat → Bool) (T : Tbl) (x name : Nat) (list st : List Nat) :
+    ∀ y ∈ st, y ∈ (purge al T x name list st).2 :=
+  fun y hy => foldl_purgeStep_mono al x name _ (T, st) y hy
+
+theorem keysOf_names_nodup {t : Tbl} (h : WF t) (o : Nat) : ((keysOf t o).map (·.1)).Nodup := by
+  unfold keysOf
+  rw [List.map_map]
+  have h1 : ((t.filter (·.1.1 == o)).map (·.1)).Nodup := (List.filter_sublist.map _).nodup h.nodup
+  unfold List.Nodup at h1 ⊢
+  rw [List.pairwise_map] at h1 ⊢
+  apply List.Pairwise.imp_of_mem _ h1
+  intro ea eb hea heb hne hab
+  apply hne
+  have ha' : ea.1.1 = o := by simpa using (List.mem_filter.1 hea).2
+  have hb' : eb.1.1 = o := by simpa using (List.mem_filter.1 heb).2
+  exact Prod.ext (by rw [ha', hb']) hab
+
 end Tbl
 
 /-! ### the mirror of the two tables -/
